@@ -323,6 +323,9 @@ func (x *Exec) builtin(st *State, fr *Frame, name string, cc *ssa.CallCommon, ar
 	case "append":
 		return x.appendOp(st, fr, cc, args, instr)
 	case "copy":
+		if out, ok := x.copySeq(st, fr, cc, args); ok {
+			return out
+		}
 		return x.copyOp(st, fr, cc, args, instr)
 	case "delete":
 		k := term(x.asTV(st, args[1]))
@@ -934,6 +937,14 @@ func (c *cenv) Lookup(name string, old bool) (SV, bool) {
 			return SV{T: "0", Sort: "Int"}, true
 		}
 		return SV{T: st.hookCount, Sort: "Int"}, true
+	case "$hookOuter":
+		// every bridge-hook notification of this path was sent on the handler's own context (not on a branch that may be dropped)
+		for _, hc := range st.hookCalls {
+			if hc.H != 0 {
+				return SV{T: "false", Sort: "Bool"}, true
+			}
+		}
+		return SV{T: "true", Sort: "Bool"}, true
 	case "$hookName":
 		if n := len(st.hookCalls); n > 0 {
 			return SV{T: x.enc.Lit(st.hookCalls[n-1].Name), Sort: "Bytes"}, true
@@ -1188,6 +1199,12 @@ func (c *cenv) TypedUF(name string) ([]types.Type, types.Type, bool) {
 		}
 	}
 	switch name {
+	case "authzMsgs":
+		ap := c.x.L.Prog.ImportedPackage("github.com/cosmos/cosmos-sdk/x/authz")
+		if ap == nil || ap.Type("MsgExec") == nil {
+			return nil, nil, false
+		}
+		return []types.Type{ap.Type("MsgExec").Type()}, types.NewSlice(types.NewInterfaceType(nil, nil)), true
 	case "valsetValidators", "stakingConsAddr":
 		tp := c.x.L.Prog.ImportedPackage("github.com/cometbft/cometbft/proto/tendermint/types")
 		stp := c.x.L.Prog.ImportedPackage("github.com/cosmos/cosmos-sdk/x/staking/types")
@@ -1253,6 +1270,25 @@ func (c *cenv) AtCall(fn string) (SpecEnv, bool) {
 }
 
 func (c *cenv) HookCallList() []HookCall { return c.st.hookCalls }
+
+// TypeByString resolves "pkg/path.Name" or "*pkg/path.Name" to the Go type (for unbox in specs).
+func (c *cenv) TypeByString(s string) (types.Type, bool) {
+	ptr := strings.HasPrefix(s, "*")
+	s = strings.TrimPrefix(s, "*")
+	i := strings.LastIndex(s, ".")
+	if i < 0 {
+		return nil, false
+	}
+	pkg := c.x.L.Prog.ImportedPackage(s[:i])
+	if pkg == nil || pkg.Type(s[i+1:]) == nil {
+		return nil, false
+	}
+	t := pkg.Type(s[i+1:]).Type()
+	if ptr {
+		return types.NewPointer(t), true
+	}
+	return t, true
+}
 
 func (c *cenv) LoopGhost(name string) (LGhost, bool) {
 	if lg, ok := c.st.lghost[name]; ok {
@@ -1325,4 +1361,53 @@ func mentionsLoopGhost(ct *Contract, text string) bool {
 		}
 	}
 	return false
+}
+
+// copySeq: copy(dst, src) on non-byte slices held as values. The first min(len(dst), len(src)) elements of the destination
+// become those of the source, its length does not change (copy never grows a slice). The destination must be a slice the
+// engine can write back to: a variable (SliceRef) or a slice-typed field loaded from an addressable place.
+func (x *Exec) copySeq(st *State, fr *Frame, cc *ssa.CallCommon, args []Value) ([]Outcome, bool) {
+	e := x.enc
+	dt, ok := cc.Args[0].Type().Underlying().(*types.Slice)
+	if !ok || e.Sort(dt.Elem()) == "Int" && isByteElem(dt.Elem()) {
+		return nil, false
+	}
+	if strings.HasPrefix(e.Sort(cc.Args[0].Type()), "Bytes") {
+		return nil, false
+	}
+	var dst TV
+	var target PtrV
+	switch d := args[0].(type) {
+	case SliceRef:
+		cur, ok := st.cells[d.Cell].(TV)
+		if !ok {
+			return nil, false
+		}
+		dst, target = cur, PtrV{Cell: d.Cell}
+	case TV:
+		o, ok := fr.origin[cc.Args[0]]
+		if !ok {
+			x.fail("copy into a slice value whose storage the engine cannot address")
+			return nil, true
+		}
+		if cur, ok := x.load(st, o, nil).(TV); !ok || cur.T != d.T {
+			x.fail("copy into a slice value whose storage changed since it was loaded")
+			return nil, true
+		}
+		dst, target = d, o
+	default:
+		return nil, false
+	}
+	src := x.asTV(st, args[1])
+	es := e.Sort(dt.Elem())
+	n := ite(app("<", seqLen(src.T), seqLen(dst.T)), seqLen(src.T), seqLen(dst.T))
+	arr := e.FreshConst("copied", fmt.Sprintf("(Array Int %s)", es))
+	st.Assume(fmt.Sprintf("(forall ((j Int)) (! (= (select %s j) (ite (and (<= 0 j) (< j %s)) (select %s j) (select %s j))) :pattern ((select %s j))))", arr, n, seqArr(src.T), seqArr(dst.T), arr))
+	x.storeTo(st, target, TV{T: app("mkseq", arr, seqLen(dst.T)), Ty: dst.Ty})
+	return []Outcome{{st: st, vals: []Value{TV{T: n, Ty: types.Typ[types.Int]}}}}, true
+}
+
+func isByteElem(t types.Type) bool {
+	b, ok := t.Underlying().(*types.Basic)
+	return ok && (b.Kind() == types.Uint8 || b.Kind() == types.Byte)
 }
